@@ -38,11 +38,11 @@ const (
 	cpuRatioMin   = 6.0
 	// quadratic work that allocates nothing (a linear scan per element): CPU time (rusage of the
 	// worker, not wall time) quadruples per doubling; judged only where it is large enough to measure
-	// (>= 2 s of CPU for well under a megabyte of input, which linear parsing never needs) and over
+	// (>= 1 s of CPU for well under a megabyte of input at the quick sizes, which linear parsing never needs) and over
 	// three doublings, where quadratic (64x) and linear (8x) are far apart even when single doublings
 	// measure anywhere between 3x and 7x on a loaded machine; the smallest of 4 measurements counts
 	cpuRatioQuad8 = 24.0 // over three doublings: linear 8x, n log n about 10x, quadratic 64x
-	cpuQuadMin    = 2.0
+	cpuQuadMin    = 1.0
 )
 
 // measure runs a series of sizes of one family under one variant in one fresh worker (one job
